@@ -26,8 +26,8 @@ TIME_UNIT = "logical time: operations applied to the transaction object (no time
 
 COMPONENTS = {
     "real": ["buidl.tx.Tx digest methods and midstate caches", "Tx.sign_* / get_sig_* / TxIn.finalize_* / initialize+finalize_p2tr_multisig", "Tx.verify_input -> Script.evaluate -> op_checksig*/op_checkmultisig",
-             "Tx.clone / serialize / parse", "buidl.witness.Witness, buidl.taproot.TapLeaf/ControlBlock/MultiSigTapScript", "buidl.pecc ECDSA/Schnorr (as used by sign/verify)"],
-    "stub": ["key pool (8 fixed secrets)", "spent outputs (_value/_script_pubkey preset, no fetcher)"],
+             "Tx.clone / serialize / parse", "buidl.witness.Witness, buidl.taproot.TapLeaf/ControlBlock/MultiSigTapScript", "buidl.pecc ECDSA/Schnorr (as used by sign/verify)", "TxIn.value()/script_pubkey() lookups (fetched plans)"],
+    "stub": ["key pool (8 fixed secrets)", "spent outputs: handed in (_value/_script_pubkey preset) or, in 'fetched' plans, looked up by the object in TxFetcher.cache filled with reference funding transactions", "urlopen seam (no explorer: every request fails)"],
 }
 LEVEL = {"C05": "exploration", "C06": "exploration"}
 RULE = {
